@@ -442,6 +442,16 @@ func (c *consumerGroup) handleError(err error, topic string, partition int32) {
 }
 
 func (c *consumerGroup) loopCheckPartitionNumbers(topics []string, session *consumerGroupSession) {
+	if c.config.Metadata.RefreshFrequency == time.Duration(0) {
+		// background metadata refresh is disabled: there is nothing to compare (and a zero
+		// interval would make NewTicker panic), but closing the group must still end the session
+		select {
+		case <-session.ctx.Done():
+		case <-c.closed:
+			session.cancel()
+		}
+		return
+	}
 	pause := time.NewTicker(c.config.Metadata.RefreshFrequency)
 	defer session.cancel()
 	defer pause.Stop()
